@@ -145,7 +145,10 @@ def pow(a,b):
     deriv_b = gradient(b)
     def deriv(r):
       ar = a(r)
-      return potential(r) * (deriv_b(r) * math.log(ar) + b(r) * deriv_a(r)/ar)
+      db = deriv_b(r)
+      # The log term vanishes for a constant exponent, a**b is then also differentiable for negative a.
+      log_term = db * math.log(ar) if db != 0.0 else 0.0
+      return potential(r) * (log_term + b(r) * deriv_a(r)/ar)
     potential.deriv = deriv
 
     if hasattr(deriv_a, 'deriv') or hasattr(deriv_b, 'deriv'):
@@ -162,7 +165,9 @@ def pow(a,b):
         d2b = deriv2_b(r)
 
         # value = (deriv_b(r)*log(a(r)) + b(r)*deriv_a(r)/a(r))*deriv(r) + (math.log(a(r))*deriv2_b(r) + b(r)*deriv2_a(r)/a(r) + deriv_a(r)*deriv2_b(r)/a(r) + deriv_b(r)*deriv2_a(r)/a(r) - b(r)*deriv_a(r)*deriv2_a(r)/a(r)**2)*potential(r)
-        value = (db*math.log(ar) + (br*da)/ar)*dr + (math.log(ar)*d2b + (br*d2a)/ar + (da*db)/ar + (db*da)/ar - (br*da*da)/(ar**2))*p
+        # The log terms vanish for a constant exponent, a**b is then also differentiable for negative a.
+        log_ar = math.log(ar) if (db != 0.0 or d2b != 0.0) else 0.0
+        value = (db*log_ar + (br*da)/ar)*dr + (log_ar*d2b + (br*d2a)/ar + (da*db)/ar + (db*da)/ar - (br*da*da)/(ar**2))*p
         return value
       potential.deriv2 = deriv2
   return potential
